@@ -161,7 +161,7 @@ def run_sharded(binary, args, nshards=None, timeout=None, env_extra=None):
     return merged
 
 
-def run_replay(binary, case, extra_args=(), timeout=120):
+def run_replay(binary, case, extra_args=(), timeout=600):
     """Runs one case in a fresh process; returns (violations, rc, stderr)."""
     p = subprocess.run([binary] + list(extra_args) + ["--replay", json.dumps(case)], stdout=subprocess.PIPE,
                        stderr=subprocess.PIPE, env=harness_env(), timeout=timeout)
